@@ -25,6 +25,7 @@ import re
 import shutil
 import signal
 import subprocess
+import threading
 import time
 
 from . import common as C
@@ -35,7 +36,7 @@ CORPUS = os.path.join(C.VERIF, "corpus", "C03")
 BINCACHE = os.path.join(C.BUILD, "c03-bin")
 HOOK_MARK = "DORA_VERIF_HEAPDUMP"
 JOBS = int(os.environ.get("VERIF_C03_JOBS", "16"))
-BV_AXIOM_PATTERNS = ("bv_decide", "Lean.ofReduceBool", "Lean.trustCompiler")
+BV_AXIOM_PATTERNS = ("bv_decide.ax",)
 
 GCS = ["zero", "copy", "sweep", "swiper"]
 BACKENDS = ["cannon", "boots"]
@@ -197,8 +198,20 @@ def cache_dir(tc):
     return d
 
 
+_BUILD_LOCKS = {}
+_BUILD_LOCKS_GUARD = threading.Lock()
+
+
 def build(tc, path, backend, gc, strip=True, outdir=None):
     """Compile one program for (backend, gc); cached by tool-chain hash + source hash. Returns (exe or None, log)."""
+    key = (tc["hash"], path, backend, gc, outdir)
+    with _BUILD_LOCKS_GUARD:
+        lk = _BUILD_LOCKS.setdefault(key, threading.Lock())
+    with lk:
+        return build_locked(tc, path, backend, gc, strip, outdir)
+
+
+def build_locked(tc, path, backend, gc, strip, outdir):
     d = outdir or cache_dir(tc)
     tag = "%s-%s-%s-%s" % (re.sub(r"\W", "_", os.path.basename(path)[:-5])[:24], src_sha(path), backend, gc)
     exe = os.path.join(d, tag)
@@ -207,7 +220,7 @@ def build(tc, path, backend, gc, strip=True, outdir=None):
         return exe, ""
     if os.path.exists(fail):
         return None, open(fail).read()
-    tmp = exe + ".tmp%d" % os.getpid()
+    tmp = exe + ".tmp%d_%d" % (os.getpid(), threading.get_ident())
     cmd = [tc["dora"], "compile"] + (["--cannon"] if backend == "cannon" else []) + ["--gc", gc, path, "-o", tmp]
     rc, out = C.sh(cmd, cwd=d, timeout=900)
     if rc != 0 or not os.path.exists(tmp):
@@ -232,8 +245,10 @@ def run_exe(exe, args, flags, timeout, extra_env=None):
     try:
         p = subprocess.run([exe] + list(args), env=env, stdout=subprocess.PIPE, stderr=subprocess.PIPE,
                            timeout=timeout, cwd=os.path.dirname(exe))
-        return dict(rc=p.returncode, out=p.stdout.decode("utf-8", "replace"), err=p.stderr.decode("utf-8", "replace")[-3000:],
-                    timeout=False, secs=time.time() - t0)
+        err = p.stderr.decode("utf-8", "replace")
+        if len(err) > 4500:
+            err = err[:2000] + "\n[...]\n" + err[-2500:]
+        return dict(rc=p.returncode, out=p.stdout.decode("utf-8", "replace"), err=err, timeout=False, secs=time.time() - t0)
     except subprocess.TimeoutExpired as ex:
         return dict(rc=None, out=(ex.stdout or b"").decode("utf-8", "replace"), err=(ex.stderr or b"").decode("utf-8", "replace")[-1500:],
                     timeout=True, secs=time.time() - t0)
@@ -342,6 +357,10 @@ def all_cells(w, cal, thorough):
     return res
 
 
+def cell_pairs(c):
+    return {((a, c[a]), (b, c[b])) for a, b in itertools.combinations(DIM_ORDER, 2)}
+
+
 def pairwise(cands, rng):
     """Greedy pairwise cover of the candidate cells: every pair of values of two different switches that occurs in
     some valid cell occurs in a chosen cell."""
@@ -369,11 +388,12 @@ def pairwise(cands, rng):
     return chosen
 
 
-def zero_cells(w):
-    if w["scale"] == "small" and False:
-        return []
-    return [dict(backend=b, gc="zero", stress="none", tlab=t, workers="1", heap="2G", young="default")
-            for b in BACKENDS for t in ("on", "off")]
+def zero_cells(w, quick, rng):
+    cells = [dict(backend=b, gc="zero", stress="none", tlab=t, workers="1", heap="2G", young="default")
+             for b in BACKENDS for t in ("on", "off")]
+    if quick:
+        return [cells[rng.randrange(4)]]
+    return cells
 
 
 def cell_name(cell):
@@ -408,12 +428,11 @@ def classify(r):
     return ("ok", r["rc"])
 
 
-def failure_key(cls, cell):
+def failure_key(cls, cell, w=None):
     bg = "%s-%s" % (cell["backend"], cell["gc"])
     if cls[0] == "panic":
         site, msg = cls[1], cls[2]
-        if (cell["backend"] == "cannon" and cell["gc"] in ("copy", "sweep") and msg.startswith("not implemented")
-                and "src/gc.rs" in site):
+        if cell["backend"] == "cannon" and cell["gc"] != "swiper" and msg.startswith("not implemented") and "src/gc.rs" in site:
             # `Collector::to_swiper` default body: generational-only code reached under another collector
             return "oracle:abort:cannon-write-barrier-under-nongenerational-gc"
         if "verify" in site:
@@ -422,6 +441,9 @@ def failure_key(cls, cell):
     if cls[0] == "signal":
         return "oracle:signal:%s:%s" % (cls[1], bg)
     if cls[0] == "oom":
+        if w is not None and w.get("threads", 1) > 1:
+            # several allocating threads: Gc::alloc gives up after 4 collections, also when other threads took the space
+            return "oracle:oom-bounded-live:%s:multithreaded" % cell["gc"]
         return "oracle:oom-bounded-live:%s" % bg
     if cls[0] == "timeout":
         return "oracle:timeout:%s" % bg
@@ -442,7 +464,7 @@ def balanced(text):
     return depth == 0
 
 
-def minimise(tc, src_text, args, cell, flags, key, budget_s=240, max_tests=80):
+def minimise(tc, src_text, args, cell, flags, key, w=None, budget_s=240, max_tests=80):
     """Smallest line subset that still (a) fails in `cell` with the same key and (b) runs to exit 0 when built by the
     SAME back end for the generational collector (so the program is still a correct program)."""
     work = os.path.join(C.BUILD, "tmp", "c03_min_%d" % os.getpid())
@@ -463,7 +485,7 @@ def minimise(tc, src_text, args, cell, flags, key, budget_s=240, max_tests=80):
         if not bad:
             return False
         r = run_exe(bad, args, flags, 120)
-        ok = not r["timeout"] and failure_key(classify(r), cell) == key
+        ok = not r["timeout"] and failure_key(classify(r), cell, w) == key
         os.unlink(bad)
         if not ok:
             return False
@@ -510,18 +532,21 @@ def run_matrix(ctx, tc, stats):
     cdir = cache_dir(tc)
     calf = os.path.join(cdir, "calibration.json")
     cal = json.load(open(calf)) if os.path.exists(calf) else {}
-    # 1. builds (all 8 variants of every program), in parallel, cached
+    # 1. builds, in parallel, cached: first the variant the calibration needs, later (3b) what the planned cells need
     progs = sorted({w["path"] for w in wls})
-    bjobs = [(p, b, g) for p in progs for b in BACKENDS for g in GCS]
     exes = {}
-    t0 = time.time()
-    with cf.ThreadPoolExecutor(max_workers=JOBS) as ex:
-        for (p, b, g), (exe, log) in zip(bjobs, ex.map(lambda j: build(tc, *j), bjobs)):
-            exes[(p, b, g)] = exe
-            if exe is None:
-                stats["build_failed"].append("%s %s/%s: %s" % (os.path.relpath(p, "/"), b, g, log[-200:].replace("\n", " ")))
-    stats["build_s"] = round(time.time() - t0, 1)
-    stats["executables"] = len([e for e in exes.values() if e])
+    t0b = time.time()
+
+    def build_all(bjobs):
+        bjobs = [j for j in bjobs if j not in exes]
+        with cf.ThreadPoolExecutor(max_workers=JOBS) as ex:
+            for (p, b, g), (exe, log) in zip(bjobs, ex.map(lambda j: build(tc, *j), bjobs)):
+                exes[(p, b, g)] = exe
+                if exe is None:
+                    stats["build_failed"].append("%s %s/%s: %s" % (os.path.relpath(p, "/"), b, g, log[-200:].replace("\n", " ")))
+
+    build_all([(p, "boots", "copy") for p in progs])
+    stats["build_s"] = round(time.time() - t0b, 1)
     # 2. calibration
     t0 = time.time()
     with cf.ThreadPoolExecutor(max_workers=JOBS) as ex:
@@ -532,21 +557,44 @@ def run_matrix(ctx, tc, stats):
     stats["calibration_s"] = round(time.time() - t0, 1)
     # 3. cells
     jobs = []
+    all_pairs, got_pairs = set(), set()
     for w, wc in zip(wls, cals):
         rng = random.Random("%s|%s" % (ctx.seed, w["name"]))
         cands = all_cells(w, wc, not quick)
-        if quick or not w["corpus"]:
+        if quick:
+            # quick tier: the first k cells of this workload's own (seeded) pairwise cover; the covers of different
+            # workloads start at different cells, the union over the workloads is measured below (pair_coverage)
+            cells = pairwise(cands, rng)[: (5 if w["corpus"] else 4)]
+        elif not w["corpus"]:
             cells = pairwise(cands, rng)
-            if not quick:
-                for extra in range(2):
-                    cells += [c for c in pairwise(cands, random.Random("%s|%s|%d" % (ctx.seed, w["name"], extra))) if c not in cells]
+            for extra in range(2):
+                cells += [c for c in pairwise(cands, random.Random("%s|%s|%d" % (ctx.seed, w["name"], extra))) if c not in cells]
         else:
             cells = cands
         w["alloc"] = wc
         w["n_valid_cells"] = len(cands)
-        for c in zero_cells(w) + cells:
+        for c in cands:
+            all_pairs.update(cell_pairs(c))
+        for c in cells:
+            got_pairs.update(cell_pairs(c))
+        for c in zero_cells(w, quick, rng) + cells:
             jobs.append((w, c))
+        if w["threads"] > 1:
+            # "all interleavings the OS produces": repeat the cells of multi-threaded workloads; and a probe with a tiny
+            # young generation, many instances at once (CPU contention makes an allocating thread starve)
+            for c in cells:
+                jobs += [(w, c)] * (2 if quick else 1)
+            if w["scale"] == "big":
+                for b in BACKENDS:
+                    probe = dict(backend=b, gc="swiper", stress="none", tlab="on", workers="2", heap="h2", young="1M")
+                    jobs += [(w, probe)] * (8 if quick else 32)
+    stats["pair_coverage"] = "%d of %d value pairs of two switches that occur in some valid cell" % (len(got_pairs), len(all_pairs))
     stats["cells_planned"] = len(jobs)
+    # 3b. the executables the planned cells need
+    t0b = time.time()
+    build_all(sorted({(w["path"], c["backend"], c["gc"]) for w, c in jobs}))
+    stats["build_s"] = round(stats["build_s"] + time.time() - t0b, 1)
+    stats["executables"] = len([e for e in exes.values() if e])
     tmo = 300 if quick else 900
 
     def one(job):
@@ -578,7 +626,7 @@ def run_matrix(ctx, tc, stats):
     by_w = {}
     for (w, c), r in zip(jobs, results):
         by_w.setdefault(w["name"], (w, []))[1].append((c, r))
-    failures = {}       # key -> list of dict(workload, cell, cls, result)
+    failures = stats["failures"]       # key -> list of dict(workload, cell, cls, result)
     for name, (w, crs) in by_w.items():
         ran = [(c, r) for c, r in crs if r is not None]
         stats["cells_run"] += len(ran)
@@ -626,7 +674,7 @@ def run_matrix(ctx, tc, stats):
                 if c["stress"] != "none" or w["scale"] == "big":
                     stats["distinct"].add((w["name"], cell_flags(c, w), c["backend"], c["gc"]))
                 continue
-            key = failure_key(bad, c)
+            key = failure_key(bad, c, w)
             stats["cells_failed"] += 1
             failures.setdefault(key, []).append(dict(w=w, cell=c, cls=bad, r=r))
     if len(stats["samples"]) < 4:
@@ -635,8 +683,12 @@ def run_matrix(ctx, tc, stats):
                 if r is not None:
                     stats["samples"].append(dict(workload=name, args=w["args"], cell=cell_name(c), DORA_FLAGS=cell_flags(c, w),
                                                  exit=r["rc"], stdout=r["out"][:160], allocations_under_stress=w.get("alloc")))
-    # 6. report each kind of failure once, with a minimised program
-    for key, fl in sorted(failures.items()):
+    return wls, exes
+
+
+def report_failures(ctx, tc, stats):
+    """Report each kind of failure once, with the list of failing cells and a minimised program."""
+    for key, fl in sorted(stats["failures"].items()):
         fl.sort(key=lambda f: os.path.getsize(f["w"]["path"]))
         f0 = fl[0]
         w, c = f0["w"], f0["cell"]
@@ -646,7 +698,7 @@ def run_matrix(ctx, tc, stats):
         mini, tests = (src, 0)
         if not known and key.startswith(("oracle:abort", "oracle:signal", "oracle:gc-verify")) and not os.environ.get("VERIF_C03_NOMIN"):
             try:
-                mini, tests = minimise(tc, src, w["args"], c, flags, key)
+                mini, tests = minimise(tc, src, w["args"], c, flags, key, w)
             except Exception as e:     # the minimiser is a convenience
                 ctx.notes.append("minimiser failed: %r" % e)
         diag = ""
@@ -669,7 +721,6 @@ def run_matrix(ctx, tc, stats):
                                             % ("--cannon " if c["backend"] == "cannon" else "", c["gc"], flags, " ".join(w["args"]))),
                     text)
         stats["failure_keys"][key] = len(fl)
-    return wls, exes
 
 
 def describe(cls, r):
@@ -692,7 +743,7 @@ def backtrace_of(tc, w, c, flags):
     out = ""
     if exe:
         r = run_exe(exe, w["args"], flags, 300, extra_env={"RUST_BACKTRACE": "1"})
-        fr = re.findall(r"\d+: (dora_\w+|dora_runtime::[\w:<>]+)", r["err"])
+        fr = re.findall(r"\d+: (dora_runtime::[\w:<>]+|dora_\w+)", r["err"])
         seen = []
         for f in fr:
             if f not in seen:
@@ -781,7 +832,7 @@ def dump_leg(ctx, tc, drv, wls, stats):
                     cands.append(dict(backend=b, gc=g, stress="none", tlab="on", workers="2", heap="h0", young="1M" if g == "swiper" else "default"))
         if quick:
             rng.shuffle(cands)
-            cands = cands[:3]
+            cands = cands[:2]
         for c in cands:
             jobs.append((w, c))
 
@@ -811,10 +862,15 @@ def dump_leg(ctx, tc, drv, wls, stats):
             continue
         r, verdict, df = res
         stats["dump_runs"] += 1
-        if w.get("ref") is not None and not r["timeout"] and (r["rc"], r["out"]) != w["ref"]:
-            k = classify(r)
-            if k[0] != "ok" or True:
-                ctx.notes.append("dump leg: %s [%s] ended differently from the reference (%s)" % (w["name"], cell_name(c), describe(k, r) if k[0] != "ok" else "output differs"))
+        k = classify(r)
+        bad = None
+        if k[0] in ("panic", "signal") or (k[0] == "oom" and w["bounded"]):
+            bad = k
+        elif k[0] == "ok" and w.get("ref") is not None and (r["rc"], r["out"]) != w["ref"]:
+            bad = ("differs",)
+        if bad is not None:
+            stats["cells_failed"] += 1
+            stats["failures"].setdefault(failure_key(bad, c, w), []).append(dict(w=w, cell=c, cls=bad, r=r))
         if verdict is None:
             stats["dump_runs_without_collection"] += 1
             continue
@@ -876,7 +932,7 @@ def run(ctx):
     tc = C.toolchain(need_boots=True)
     tc["hash"] = tc.get("hash") or C.repo_tree_hash()
     stats = dict(build_failed=[], cells_planned=0, cells_run=0, cells_ok=0, cells_failed=0, workloads=0, hist={}, secs=0.0,
-                 distinct=set(), samples=[], failure_keys={}, reference_zero=0, reference_majority=0, zero_did_not_fit=0,
+                 distinct=set(), samples=[], failure_keys={}, failures={}, reference_zero=0, reference_majority=0, zero_did_not_fit=0,
                  inconclusive_timeouts=[], timeouts_retried=0, timeouts_not_reproduced=0,
                  hdr_hist={}, hdr_evaluations=0, hdr_distinct=set(), hdr_disagreements=0, hdr_samples=[],
                  dump_leg="", dump_runs=0, dump_runs_without_collection=0, collections_validated=0, collections_rejected=0,
@@ -888,6 +944,7 @@ def run(ctx):
         header_tie(ctx, drv, stats)
         wls, exes = run_matrix(ctx, tc, stats)
         dump_leg(ctx, tc, drv, wls, stats)
+        report_failures(ctx, tc, stats)
     for b in stats["build_failed"][:10]:
         ctx.notes.append("not compilable: " + b)
     if not po["build_ok"] or po["failed"]:
@@ -917,7 +974,7 @@ def run(ctx):
         matrix=dict(cells_planned=stats["cells_planned"], cells_run=stats["cells_run"], cells_ok=stats["cells_ok"],
                     cells_failed=stats["cells_failed"], failure_keys=stats["failure_keys"], executables=stats.get("executables", 0),
                     reference_zero=stats["reference_zero"], reference_majority=stats["reference_majority"],
-                    zero_did_not_fit=stats["zero_did_not_fit"], inconclusive_timeouts=stats["inconclusive_timeouts"][:20],
+                    zero_did_not_fit=stats["zero_did_not_fit"], pair_coverage=stats.get("pair_coverage"), inconclusive_timeouts=stats["inconclusive_timeouts"][:20],
                     timeouts_not_reproduced=stats["timeouts_not_reproduced"], cpu_seconds=round(stats["secs"], 1),
                     build_s=stats.get("build_s"), calibration_s=stats.get("calibration_s"), run_s=stats.get("run_s")),
         header_tie=dict(evaluations=stats["hdr_evaluations"], distinct=len(stats["hdr_distinct"]), histogram=stats["hdr_hist"],
